@@ -110,6 +110,32 @@ def get_roles(ctx):
     return ctx.cache['roles']
 
 
+def ts_name_kind(name):
+    """Which per-entry timestamp store a field name denotes: 'wo' (last modified) / 'ao' (last accessed) / None.  The two stores are
+    told apart by the stem of their name (last_modified, modified, mtime_.. do not all qualify: `modif` / `access` must occur)."""
+    n = str(name).lower()
+    if 'order' in n or 'node' in n:
+        return None
+    if 'modif' in n:
+        return 'wo'
+    if 'access' in n:
+        return 'ao'
+    return None
+
+
+def sync_ts_fields(ctx):
+    """[(adt, field)] of the per-entry timestamp stores of the concurrent cache: AtomicInstant fields outside the cache state itself."""
+    out = []
+    for adt, a in ctx.prog.adts.items():
+        if not adt.startswith('common::concurrent::'):
+            continue
+        for v in a['variants']:
+            for f in v['fields']:
+                if f['ty']['s'].endswith('AtomicInstant') and ts_name_kind(f['name']):
+                    out.append((adt, f['name']))
+    return sorted(out)
+
+
 def wrapper_kind(ctx, fn):
     """(action, queue) of a cache-level deque wrapper, by what it does: action = push / unlink / move (which list primitive role it
     reaches), queue = ao / wo (which node pointer of the entry it touches: access_order_q_node / write_order_q_node).  None for
